@@ -553,12 +553,12 @@ func (g *gen) sendStmt() J {
 		if all {
 			src = J{"k": "acct", "e": eAcct(pick(r, c.accts))}
 			if r.Intn(3) == 0 {
-				src = J{"k": "seq", "s": []any{J{"k": "acct", "e": eAcct("a")}, J{"k": "acct", "e": eAcct("b")}, J{"k": "acct", "e": eAcct("c")}}}
+				src = J{"k": "seq", "s": []any{J{"k": "acct", "e": eAcct(c.accts[0])}, J{"k": "acct", "e": eAcct(c.accts[1])}, J{"k": "acct", "e": eAcct(c.accts[2])}}}
 			}
 		} else {
 			src = J{"k": "acct", "e": eAcct("world")}
 			if r.Intn(3) == 0 { // several senders in line, world last: the amount is always supplied
-				src = J{"k": "seq", "s": []any{J{"k": "acct", "e": eAcct("a")}, J{"k": "acct", "e": eAcct("b")}, J{"k": "acct", "e": eAcct("world")}}}
+				src = J{"k": "seq", "s": []any{J{"k": "acct", "e": eAcct(c.accts[0])}, J{"k": "acct", "e": eAcct(c.accts[1])}, J{"k": "acct", "e": eAcct("world")}}}
 			}
 		}
 	} else {
@@ -600,7 +600,25 @@ func (g *gen) stmt() J {
 	}
 }
 
+// hierarchical names whose concatenations collide: "p" + ":" + "q:r" and "p:q" + ":" + "r" are the same text, "p:q" is both
+// an account and a prefix of another; an account is identified by its whole name, never by a joined or cut text
+var colonNames = map[string]string{"a": "p", "b": "p:q", "c": "q", "x": "q:r", "y": "r"}
+
+func renamePool(xs []string) []string {
+	out := make([]string, len(xs))
+	for i, x := range xs {
+		out[i] = x
+		if n, ok := colonNames[x]; ok {
+			out[i] = n
+		}
+	}
+	return out
+}
+
 func genCase(r *rand.Rand, cfg genCfg, id int) *Case {
+	if r.Intn(4) == 0 {
+		cfg.accts, cfg.dsts = renamePool(cfg.accts), renamePool(cfg.dsts)
+	}
 	g := &gen{r: r, cfg: cfg}
 	c := &Case{ID: id, Corpus: cfg.name, VarVals: map[string]J{}, RawVars: map[string]string{},
 		Bal: map[string]map[string]int64{}, Meta: map[string]map[string]string{}}
